@@ -3,6 +3,10 @@ package h
 import (
 	"fmt"
 	"sync"
+
+	"github.com/mlange-42/arche/ecs"
+	"github.com/mlange-42/arche/ecs/event"
+	"github.com/mlange-42/arche/listener"
 )
 
 func init() { CaseFns["C19"] = caseC19 }
@@ -25,7 +29,30 @@ func runC19(seed uint64, cs, gi, histories int) c19Result {
 		p.Late = []string{fmt.Sprintf("F%d", 1200+gi), "S11", fmt.Sprintf("X%d", gi%7)}
 		p.W["RegisterType"] = 2
 		p.W["ResRegister"], p.W["ResAdd"], p.W["ResRemove"] = 1, 2, 1
-		s := RunHistory(r, cfg, Opts{Model: true, Events: true, Cache: true, Sweep: h%2 == 0, Inv: h%3 == 0, Track: true}, p)
+		var s *Sess
+		if h%3 == 1 {
+			// generic API, filter package and listener package as well: their package-level state is shared too
+			cfg = c18Cfg(r)
+			for k := range p.W {
+				p.W[k] /= 3
+			}
+			p.Zero("RegisterType", "Reset", "QueryCheck", "CacheRegister", "CacheUnregister")
+			p.W["G.Map"], p.W["G.Single"], p.W["G.Ex"], p.W["G.Filter"] = 60, 15, 25, 45
+			s = NewSess(cfg, Opts{Model: true, Track: true})
+			s.gfs = map[int]*gfState{}
+			n := 0
+			cb := listener.NewCallback(func(w *ecs.World, e ecs.EntityEvent) { n++ }, event.All)
+			cb2 := listener.NewCallback(func(w *ecs.World, e ecs.EntityEvent) { n++ }, event.Relations, s.ids(s.Cfg.Used[:2])...)
+			d := listener.NewDispatch(&cb, &cb2)
+			s.W.SetListener(&d)
+			g := NewGen(r, s, p)
+			for i := 0; i < p.Steps && !s.Failed(); i++ {
+				s.Do(g.Next())
+			}
+			s.trace("events", n)
+		} else {
+			s = RunHistory(r, cfg, Opts{Model: true, Events: true, Cache: true, Sweep: h%2 == 0, Inv: h%3 == 0, Track: true}, p)
+		}
 		res.trans = append(res.trans, s.Transcript())
 		res.cov.Merge(s.Cov)
 		for k := range s.Cov.Ops {
